@@ -15,8 +15,10 @@ Two instances: `exact` (an alphabet covering every branch of the affine rule, al
 
 import json
 
+import concurrent.futures as cf
+
 import c03_data
-from common import MachineryFailure
+from common import NCPU, MachineryFailure
 
 CHUNK = 4000
 
@@ -35,9 +37,13 @@ def _short(o):
 
 
 def _validate(ck, obs, datapath, label):
+    """TLC evaluates P and T on the observations; returns the verdict actions in a deterministic order (they are
+    applied by the caller after all concurrent work has finished)."""
     keep = ("kind", "a", "b", "c", "k", "dt", "sh", "xs", "exact", "sys", "sysi", "ustr")
-    for off in range(0, len(obs), CHUNK):
-        part = obs[off : off + CHUNK]
+    chunks = [(off, obs[off : off + CHUNK]) for off in range(0, len(obs), CHUNK)]
+
+    def one(arg):
+        off, part = arg
         slim = []
         for o in part:
             s = {k: o[k] for k in keep}
@@ -47,23 +53,38 @@ def _validate(ck, obs, datapath, label):
         res = ck.tlc("Trace_C03", env={"C03_DATA": datapath, "C03_OBS": path}, workers=1, coverage=False, label=f"trace validation {label}", timeout=3000)
         if res.distinct != len(part) + 1:
             raise MachineryFailure(f"trace validation consumed {res.distinct} states, expected {len(part) + 1}")
-        ck.validated(len(part))
-        for r in res.by_tag("T-FAIL"):
+        acts = [("validated", len(part))]
+        for r in sorted(res.by_tag("T-FAIL"), key=lambda r: (r["i"], r["what"], r["fam"], r["rt"])):
             o = part[r["i"] - 1]
-            ck.drift_step(f"{r['what']}:{r['fam']}.{r['rt']}", {"case": _short(o), "res": [x for x in o["res"] if x["fam"] == r["fam"] and x["rt"] == r["rt"]][:1]})
-        for r in res.by_tag("P-FAIL"):
+            acts.append(("drift", f"{r['what']}:{r['fam']}.{r['rt']}", {"case": _short(o), "res": [x for x in o["res"] if x["fam"] == r["fam"] and x["rt"] == r["rt"]][:1]}))
+        for r in sorted(res.by_tag("P-FAIL"), key=lambda r: (r["i"], r["j"], r["clause"])):
             o = part[r["i"] - 1]
             x = o["res"][r["j"] - 1]
-            key = {"clause": r["clause"], "fam": r["fam"], "rt": r["rt"], "dt": o["dt"], "sh": o["sh"], "cls": r["cls"], "exc": r["exc"]}
-            fam = [y for y in o["res"] if y["fam"] in (r["fam"], {"abc": "ac", "aba": "id", "bback": "id"}.get(r["fam"], r["fam"]))]
+            key = {"clause": r["clause"], "fam": r["fam"], "rt": r["rt"], "dt": o["dt"], "sh": o["sh"], "cls": r["cls"], "exc": r["exc"], "registry": "user" if label.startswith("user") else "default"}
+            fam = [y for y in o["res"] if y["fam"] in (r["fam"], {"abc": "ac", "aba": "id", "bback": "id", "src": "id"}.get(r["fam"], r["fam"]))]
             detail = {"case": _short(o), "xs": o["xs"], "observed": {f"{y['fam']}.{y['rt']}": [y["k"], y["exc"], y["u"], y["show"]] for y in fam}, "failing": f"{x['fam']}.{x['rt']}"}
             case = {k: o[k] for k in ("kind", "a", "b", "c", "k", "dt", "sh", "xs", "exact", "sys", "sysi")}
             case.update(mode=label.split("-")[0], A=o["_case"]["A"], B=o["_case"]["B"], C=o["_case"]["C"], gen=o["_case"]["gen"], cand=o["_case"]["cand"])
-            ck.violation(key, detail, case=case)
+            acts.append(("violation", key, detail, case))
+        return acts
+
+    with cf.ThreadPoolExecutor(max_workers=max(1, NCPU // 2)) as ex:
+        parts = list(ex.map(one, chunks))
+    return [a for p in parts for a in p]
 
 
-def _instance(ck, mode, stride, phase, allcombos, withbase):
-    data, info = c03_data.build(ck.extract(), mode)
+def _apply(ck, acts):
+    for a in acts:
+        if a[0] == "validated":
+            ck.validated(a[1])
+        elif a[0] == "drift":
+            ck.drift_step(a[1], a[2])
+        else:
+            ck.violation(a[1], a[2], case=a[3])
+
+
+def _instance(ck, extract, mode, stride, phase, allcombos, withbase):
+    data, info = c03_data.build(extract, mode)
     datapath = ck.write_json(f"c03_data_{mode}.json", data)
     _cfg(ck, f"MC_C03_{mode}", stride, phase, allcombos, withbase)
     res = ck.tlc("MC_C03", f"MC_C03_{mode}", env={"C03_DATA": datapath}, workers=1, coverage=False, label=f"case table {mode} stride={stride} allcombos={allcombos}", timeout=3000)
@@ -82,8 +103,7 @@ def _replay(ck, mode, datapath, info, cases, label):
         raise MachineryFailure("replay error: " + str(bad[0]))
     for o, c in zip(obs, cases):
         o["_case"] = c
-    _validate(ck, obs, datapath, label)
-    return obs
+    return _validate(ck, obs, datapath, label)
 
 
 def run(ck):
@@ -93,7 +113,8 @@ def run(ck):
         "observed floats are matched to the specification's exact numbers (or to each other) within 512 eps (float64) / 32 eps (float32) of the largest magnitude met in the chain, offsets included",
         "dtype alphabet float64, float32, complex128, int64, int32 (1- and 2-byte integers belong to C17/C18); shapes scalar and 1-d",
         "the by-hand route (get_conversion_factor) is not demanded across dimensions (no EM route: explicit refusal)",
-        "unit systems mks, cgs, imperial (+ galactic, solar in the table instance); which unit a system picks is C10's",
+        "unit systems mks, cgs, imperial (+ galactic, solar in the table and user instances); which unit a system picks is C10's",
+        "user instance: one caller-made registry (4 added code_* symbols, 8 re-calibrated symbols incl. base units of imperial/galactic/solar); a resulting unit bound to another registry than the quantity's counts as a different unit",
     ]
     if ck.replay:
         blob = json.load(open(ck.replay))
@@ -101,19 +122,31 @@ def run(ck):
         mode = case.get("mode", "exact")
         data, info = c03_data.build(ck.extract(), mode)
         datapath = ck.write_json(f"c03_data_{mode}.json", data)
-        _replay(ck, mode, datapath, info, [case], f"{mode}-replay")
+        _apply(ck, _replay(ck, mode, datapath, info, [case], f"{mode}-replay"))
         return
 
     seed = ck.seed
+    extract = ck.extract()
+    plan = (
+        ("exact", ck.q(8, 1), False, True),
+        ("user", ck.q(8, 1), False, True),
+        ("table", ck.q(31, 1), False, True),
+    )
+
+    def job(p):
+        mode, stride, allc, withbase = p
+        data, info, datapath, cases = _instance(ck, extract, mode, stride, seed % stride, allc, withbase)
+        acts = _replay(ck, mode, datapath, info, cases, f"{mode}-cover")
+        return data, cases, acts
+
+    # the instances are independent: TLC case tables, replays and trace validation run concurrently; verdicts are
+    # applied afterwards in the fixed order of `plan`
+    with cf.ThreadPoolExecutor(max_workers=len(plan)) as ex:
+        done = list(ex.map(job, plan))
     model_fail = 0
     n_exact = n_cases = 0
     nontrivial = 0
-    for mode, stride, allc, withbase in (
-        ("exact", ck.q(8, 1), False, True),
-        ("table", ck.q(31, 1), False, True),
-    ):
-        phase = seed % stride
-        data, info, datapath, cases = _instance(ck, mode, stride, phase, allc, withbase)
+    for (mode, stride, allc, withbase), (data, cases, acts) in zip(plan, done):
         for c in cases:
             m = c["model"]
             if not (m["id"] and m["inv"] and m["comp"] and m["routes"]):
@@ -127,7 +160,7 @@ def run(ck):
         ck.cov[f"pool_{mode}"] = len(data["pool"])
         ck.cov[f"units_exact_{mode}"] = sum(1 for r in data["lut"] if r["ex"])
         ck.cov[f"units_total_{mode}"] = len(data["lut"])
-        _replay(ck, mode, datapath, info, cases, f"{mode}-cover")
+        _apply(ck, acts)
     if model_fail:
         # the transcription itself breaks a law on the grid: a claim about the design, replayed above like any case
         ck.drift_step("model-level law failure", {"count": model_fail})
